@@ -72,14 +72,14 @@ type Term struct {
 func (t *Term) IsConst() bool { return t.Op == OpConst || t.Op == OpBConst }
 
 type TermBank struct {
-	tab   map[string]*Term
+	tab   map[termKey]*Term
 	terms []*Term
 	vars  []*Term
 	ufs   map[string]string // name -> declaration
 }
 
 func NewTermBank() *TermBank {
-	return &TermBank{tab: map[string]*Term{}, ufs: map[string]string{}}
+	return &TermBank{tab: map[termKey]*Term{}, ufs: map[string]string{}}
 }
 
 func mask(w int) uint64 {
@@ -89,13 +89,32 @@ func mask(w int) uint64 {
 	return (uint64(1) << uint(w)) - 1
 }
 
+type termKey struct {
+	op         Op
+	w          int
+	a, b       uint64
+	name       string
+	n          int
+	x0, x1, x2 int
+}
+
 func (tb *TermBank) mk(t *Term) *Term {
-	var sb strings.Builder
-	fmt.Fprintf(&sb, "%d:%d:%d:%d:%s", t.Op, t.W, t.A, t.B, t.Name)
-	for _, a := range t.Args {
-		fmt.Fprintf(&sb, ":%d", a.ID)
+	k := termKey{op: t.Op, w: t.W, a: t.A, b: t.B, name: t.Name, n: len(t.Args), x0: -1, x1: -1, x2: -1}
+	switch len(t.Args) {
+	case 0:
+	case 1:
+		k.x0 = t.Args[0].ID
+	case 2:
+		k.x0, k.x1 = t.Args[0].ID, t.Args[1].ID
+	case 3:
+		k.x0, k.x1, k.x2 = t.Args[0].ID, t.Args[1].ID, t.Args[2].ID
+	default:
+		// rare (uninterpreted functions with many arguments): fold the rest into the name
+		k.x0, k.x1, k.x2 = t.Args[0].ID, t.Args[1].ID, t.Args[2].ID
+		for _, a := range t.Args[3:] {
+			k.name += fmt.Sprintf(":%d", a.ID)
+		}
 	}
-	k := sb.String()
 	if x, ok := tb.tab[k]; ok {
 		return x
 	}
@@ -401,6 +420,43 @@ func (tb *TermBank) Bin(op Op, a, b *Term) *Term {
 			return a
 		}
 	}
+	if w <= 64 {
+		switch op {
+		case OpLShr:
+			// ((x << c) | low) >> c  ==  x   when x loses no bits and low < 2^c
+			if b.Op == OpConst && a.Op == OpOr {
+				c := b.A
+				for k := 0; k < 2; k++ {
+					sh, low := a.Args[k], a.Args[1-k]
+					if sh.Op == OpShl && sh.Args[1].Op == OpConst && sh.Args[1].A == c && c < 64 &&
+						low.Hi < uint64(1)<<c && sh.Args[0].Hi <= mask(w)>>c {
+						return sh.Args[0]
+					}
+				}
+			}
+			if b.Op == OpConst && a.Op == OpShl && a.Args[1].Op == OpConst && a.Args[1].A == b.A && b.A < 64 &&
+				a.Args[0].Hi <= mask(w)>>b.A {
+				return a.Args[0]
+			}
+		case OpAnd:
+			// ((x << c) | low) & m  ==  low   when m < 2^c and low <= m has only bits inside m
+			for k := 0; k < 2; k++ {
+				o, m := a, b
+				if k == 1 {
+					o, m = b, a
+				}
+				if m.Op == OpConst && o.Op == OpOr {
+					for q := 0; q < 2; q++ {
+						sh, low := o.Args[q], o.Args[1-q]
+						if sh.Op == OpShl && sh.Args[1].Op == OpConst && sh.Args[1].A < 64 &&
+							m.A < uint64(1)<<sh.Args[1].A && (^low.K0&mask(w))&^m.A == 0 {
+							return low
+						}
+					}
+				}
+			}
+		}
+	}
 	// canonical order for commutative ops: constant last
 	switch op {
 	case OpAdd, OpMul, OpAnd, OpOr, OpXor:
@@ -480,6 +536,19 @@ func (tb *TermBank) ZExt(a *Term, w int) *Term {
 	}
 	if a.Op == OpZExt {
 		return tb.ZExt(a.Args[0], w)
+	}
+	if a.Op == OpExtract && a.B == 0 {
+		src := a.Args[0]
+		if src.W <= 64 && src.Hi <= mask(a.W) {
+			// the extract dropped only zero bits
+			if src.W == w {
+				return src
+			}
+			if src.W < w {
+				return tb.ZExt(src, w)
+			}
+			return tb.Extract(src, w-1, 0)
+		}
 	}
 	return tb.mk(&Term{Op: OpZExt, W: w, Args: []*Term{a}, A: uint64(w - a.W)})
 }
